@@ -215,13 +215,20 @@ func init() {
 				}
 				n++
 				item := fi.varOf(rs.Value)
+				// the provider map: the first result of the function's successful return
+				var provMap *types.Var
+				for _, ret := range fi.returnsOf() {
+					if len(ret.Results) == 3 && fi.isNilIdent(ret.Results[2]) {
+						provMap = fi.varOf(ret.Results[0])
+					}
+				}
 				reads, writes := map[string]ast.Node{}, map[string]ast.Node{}
 				for _, cl := range fi.callsDeep(rs.Body) {
 					nm := fi.calleeName(cl)
 					if !strings.HasSuffix(nm, "typeutil.Map.At") && !strings.HasSuffix(nm, "typeutil.Map.Set") {
 						continue
 					}
-					if v := fi.varOf(recvOf(cl)); v == nil || v.Name() != "providerMap" {
+					if v := fi.varOf(recvOf(cl)); v == nil || v != provMap {
 						continue
 					}
 					if sel, ok := ast.Unparen(cl.Args[0]).(*ast.SelectorExpr); ok && fi.varOf(sel.X) == item {
